@@ -31,6 +31,7 @@ struct TaskInfo {
   uint64_t sub_end = 0;
   Future<int> fut;
   bool fin_at_stop = false, ready_at_stop = false, started_at_stop = false;
+  bool value_ok = true;
 };
 
 struct World {
@@ -165,6 +166,15 @@ int main() {
       }
       for (auto& t : ths) t.join();
       if (!world.stop_called) do_stop(false);
+      if (kind == 'T') AlwaysUseNewThreadExecutor::instance().join();   // a join() racing with submitters may have returned early
+      for (size_t i = 0; i < world.tasks.size(); ++i) {   // futures: value of the callable, never ready without a run
+        TaskInfo& t = world.tasks[i];
+        if (t.has_future && t.future_valid) {
+          if (t.runs == 1 && t.finished == 1 && (!t.fut.ready() || t.fut.get() != (int)i * 7 + 1)) t.value_ok = false;
+          if (t.runs == 0 && t.fut.ready()) t.value_ok = false;
+        }
+        t.fut = Future<int>();   // a task stranded behind the STOP markers is destroyed with the queue: drop our reference first
+      }
       if (world.pool && !world.destroyed) { world.destroyed = true; delete world.pool; }   // destructor: second stop() is a no-op
     });
     verif::Options opt; opt.seed = seed; opt.strategy = strategy; opt.max_steps = 400000;
@@ -180,7 +190,7 @@ int main() {
       ch = false;
       for (size_t i = 0; i < n; ++i) {
         TaskInfo& t = world.tasks[i];
-        if (!must[i] && t.accepted && t.parent >= 0 && must[(size_t)t.parent] && t.expect_local) { must[i] = 1; ch = true; }
+        if (!must[i] && t.accepted && t.parent >= 0 && must[(size_t)t.parent] && (t.expect_local || kind == 'T')) { must[i] = 1; ch = true; }
       }
     }
     bool once = true, drain = true, ready = true, scope = true, failed = true, value = true, quiet = true, inplace = true;
@@ -195,12 +205,9 @@ int main() {
       if ((!t.submitted || !t.accepted) && t.runs) failed = false;
       if (t.submitted && !t.accepted && t.has_future && t.future_valid) failed = false;
       if (kind == 'F' && t.submitted && (t.accepted || t.runs)) failed = false;
-      if (t.has_future && t.future_valid && t.runs == 1) {
-        if (!t.fut.ready() || t.fut.get() != (int)i * 7 + 1) value = false;
-      }
-      if (t.has_future && t.future_valid && t.runs == 0 && t.fut.ready()) value = false;
-      if (t.runs && !t.started_at_stop) quiet = false;
-      if (t.started_at_stop && !t.fin_at_stop) quiet = false;
+      if (!t.value_ok) value = false;
+      if (kind == 'P' && t.runs && !t.started_at_stop) quiet = false;
+      if (kind == 'P' && t.started_at_stop && !t.fin_at_stop) quiet = false;
       if (kind == 'I' && t.submitted && t.runs != 1) inplace = false;
       if (t.accepted && !t.runs) norun += (norun.empty() ? "" : ",") + std::to_string(i);
     }
